@@ -116,8 +116,9 @@ def big_endian_digits_to_int(digits: Iterable[int], *, base: int | Iterable[int]
     for d, b in zip(digits, base):
         if not (0 <= d < b):
             raise ValueError(f'Out of range digit. Digit: {d!r}, base: {b!r}')
-        result *= b
-        result += d
+        # Accumulate in Python integers: numpy scalar digits (e.g. uint8 measurement
+        # records) would otherwise wrap around silently at their fixed width.
+        result = result * int(b) + int(d)
     return result
 
 
